@@ -378,31 +378,16 @@ def r4_block_header(chk, put, mapb, get):
     fl = [f["name"] for f in chk.prog.fields(rec)]
     chk.decide(fl == ["pos", "key_len", "record_len"], "C02.R4", f"{UKV}:UKVRecord:fields", f"{rec.module.relpath}:{rec.node.lineno}",
                f"fields {fl}", f"UKVRecord fields are {fl}")
-    # put: pack(len(key), len(value)), record(eof, len(key), len(value)), write key then value
-    packs = [c for c in walk_no_nested(put.node) if isinstance(c, ast.Call) and _is_pack(c)]
-    chk.require(len(packs) == 1, "put: expected exactly one pack of the block header")
-    c = packs[0]
-    args = c.args[1:] if call_name(c) == "self._pack_write" else c.args
-    a = [_record_subst(put.node, x) for x in args]
-    chk.decide(a == ["len(key)", "len(value)"], "C02.R4", f"{put.key}:packed-fields", put.where(c), f"packs {a}",
-               f"put packs {a} into the block header; the scanner unpacks (key_len, record_len)")
-    recs = calls_named(put.node, {"UKVRecord"})
-    chk.require(len(recs) >= 1, "put: no UKVRecord construction")
-    for r in recs:
-        ra = [_record_subst(put.node, x) for x in r.args] + [f"{k.arg}={_record_subst(put.node, k.value)}" for k in r.keywords]
-        chk.decide(ra == ["self._eof", "len(key)", "len(value)"], "C02.R4", f"{put.key}:record", put.where(r), f"UKVRecord{tuple(ra)}",
-                   f"put indexes the record as UKVRecord({', '.join(ra)}); expected (self._eof, len(key), len(value))")
-    ws = doc_sorted(put.node, calls_named(put.node, {"self._stream.write", "self._pack_write"}))
-    order = []
-    asg = assignments(put.node)
-    for w in ws:
-        if call_name(w) == "self._pack_write":
-            order.append("header")
-        else:
-            p = provenance(put.node, w.args[0], put.params(), asg)
-            order.append("header" if any(t.startswith("call:") and t.endswith("pack") for t in p) else norm(w.args[0]))
-    chk.decide(order == ["header", "key", "value"], "C02.R4", f"{put.key}:write-order", put.where(), f"writes {order}",
-               f"put writes {order}; the layout is header | key | value")
+    # put: header(len(key), len(value)) | key | value written back to back from _eof; indexed as (that offset, len(key), len(value)) - by stream offsets
+    from .ukvscan import put_facts
+
+    pf = put_facts(chk.prog, put, len(fields))
+    for fk, ok_key in (("layout", "packed-fields-and-write-order"), ("record", "record")):
+        f_ = pf[fk]
+        chk.decide(f_.ok, "C02.R4", f"{put.key}:{ok_key}", put.where(f_.node), f_.good, f_.bad)
+    if "eof" in pf:
+        f_ = pf["eof"]
+        chk.decide(f_.ok, "C02.R4", f"{put.key}:eof-advances-to-block-end", put.where(f_.node), f_.good, f_.bad)
     # map_blocks: record construction, key read, advance and admission, decided on affine offsets (sa/affine.py)
     from .ukvscan import scan_facts
 
@@ -515,20 +500,10 @@ def r6_append_only(chk, put, wh, mapb):
         if wcalls:
             key = f"{f.key}:stream-writes"
             if name == "put":
-                cfg = CFG(f.node)
-                wn = {n.id for n in cfg.nodes if n.kind == "stmt" and has_call(n.ast, {"self._stream.write", "self._pack_write"})}
-                sn = {n.id for n in cfg.nodes if n.kind == "stmt" and any(
-                    len(c.args) == 1 and _record_subst(f.node, c.args[0]) == "self._eof" for c in calls_named(n.ast, {"self._stream.seek"}))}
-                other_seek = {n.id for n in cfg.nodes if n.kind == "stmt" and has_call(n.ast, {"self._stream.seek"})} - sn
-                reach = cfg.reachable([cfg.entry], avoid=sn, labels={"next", "true", "false", "back"})
-                bad = reach & wn
-                # a different seek between seek(_eof) and a write
-                for o in other_seek:
-                    if cfg.reachable([o], labels={"next", "true", "false", "back"}) & wn:
-                        bad = bad | {o}
-                chk.decide(not bad, "C02.R6", key, f.where(),
-                           f"{len(wn)} write(s), all after seek(self._eof)",
-                           "a stream write in put is not preceded by seek(self._eof) on every path: it can land inside the committed region")
+                from .ukvscan import put_facts as _pf
+
+                fa = _pf(prog, f, 2)["append-only"]
+                chk.decide(fa.ok, "C02.R6", key, f.where(fa.node), fa.good, "put: " + fa.bad + " (only bytes behind _eof may be written, in file order)")
             elif name == "write_header":
                 s0 = [c for c in calls_named(f.node, {"self._stream.seek"})]
                 ok = len(s0) == 1 and norm(s0[0].args[0]) == "0" and len(s0[0].args) == 1 and s0[0].lineno < min(w.lineno for w in wcalls)
